@@ -471,6 +471,13 @@ func init() {
 			return concStr("modaddr:" + cstr(a[0]))
 		}
 
+		m["github.com/cosmos/cosmos-sdk/x/auth/types.NewModuleAddressOrBech32Address"] = func(ex *Exec, fr *frame, cc *ssa.CallCommon, a []Value) Value {
+			s := a[0].(VStr)
+			if s.Conc != nil && !strings.HasPrefix(*s.Conc, "modaddr:") {
+				return concStr("modaddr:" + *s.Conc)
+			}
+			return a[0]
+		}
 		// ---------------- coins (single denom family; concrete denoms)
 		m["github.com/cosmos/cosmos-sdk/types.NewCoin"] = func(ex *Exec, fr *frame, cc *ssa.CallCommon, a []Value) Value {
 			if ex.decide(Lt(ti(a[1]), IntC(0))) {
